@@ -356,10 +356,9 @@ def oracle(script, spans, nocomments, obs):
     if "exc" in run:
         fails.append(f"LineageRunner raised {run['exc']} although no statement is parsed (tap stub)")
         return fails
-    lead = len(script) - len(script.lstrip())
-    sscript = script.strip()
-    sspans = [(a - lead, b - lead) for a, b in spans]
-    fails += check_partition(sscript, sspans, run["tapped"], "texts analysed by _eval")
+    # `_eval` strips the script first; a piece of the stripped script is still a substring of the script itself, and
+    # the property does not legislate outer blanks, so the analysed texts are located in the unstripped script
+    fails += check_partition(script, spans, run["tapped"], "texts analysed by _eval")
     rep = run["reported"]
     if len(rep) != len(spans):
         fails.append(f"statements() reports {len(rep)} statement(s), the script has {len(spans)}")
@@ -416,7 +415,7 @@ def gen_cases(chk, n_gen, n_all):
         yield {"lead": [], "items": [[a, nz]]}, "E2-tail"
         if len(nz) < k:
             yield {"lead": [], "items": [[a, nz + ["LDE"]]]}, "E2-tail"
-    n_rand = 40000 if chk.tier == "thorough" else 1100
+    n_rand = 40000 if chk.tier == "thorough" else 1000
     rng = chk.rng
     for _ in range(n_rand):
         n = rng.choice([1, 2, 2, 3, 3, 4, 4, 5, 5])
@@ -490,7 +489,7 @@ def part_ab(chk, drv, impl, stmts, n_gen):
     stats = {"cases": 0, "outside_class": {}, "by_space": {}, "statements_per_script": {}, "corpus_statements_used": 0}
     # the enumerated spaces are always completed; the random tail stops at its time budget (scripts with tpcds-sized
     # statements cost sqlparse tens of milliseconds each)
-    budget = (7 * 60) if chk.tier == "thorough" else 30
+    budget = (5 * 60) if chk.tier == "thorough" else 18
     t_rand = None
     for (case, tag), ans in zip(cases, answers):
         if tag == "random":
@@ -579,7 +578,7 @@ def part_chars(chk, drv, impl):
     k = 5 if chk.tier == "thorough" else 4
     strings = ["".join(t) for n in range(1, k + 1) for t in itertools.product(CHAR_ALPHA, repeat=n)]
     n_exh = len(strings)
-    n_rand = 30000 if chk.tier == "thorough" else 2000
+    n_rand = 30000 if chk.tier == "thorough" else 1000
     for _ in range(n_rand):
         strings.append("".join(chk.rng.choice(RAND_ALPHA) for _ in range(chk.rng.randint(1, 14))))
     ans = drv.ask([{"cmd": "split", "s": v} for v in strings], chunk=20000)
@@ -597,10 +596,6 @@ def part_chars(chk, drv, impl):
             if len(chk.stale) < 20:
                 chk.stale.append({"kind": "string", "script": v, "impl": got, "model": a["split"]})
             continue
-        if a["level0stripped"]:
-            got2 = impl.helpers.split(v.strip())
-            if got2 != a["runnerSplit"] and len(chk.stale) < 20:
-                chk.stale.append({"kind": "string-stripped", "script": v, "impl": got2, "model": a["runnerSplit"]})
     return stats
 
 
@@ -680,8 +675,8 @@ def lineage_case(impl, singles, dialect, script, texts, tsql_flag=False):
 
 def part_c(chk, impl, stmts, n_gen, singles):
     dialects = ["ansi", "mysql"] + (["sparksql", "bigquery", "postgres", "snowflake", "tsql"] if chk.tier == "thorough" else [])
-    n_cases = 2500 if chk.tier == "thorough" else 170
-    budget = (9 * 60) if chk.tier == "thorough" else 45
+    n_cases = 2500 if chk.tier == "thorough" else 120
+    budget = (8 * 60) if chk.tier == "thorough" else 25
     t0 = time.time()
     rng = chk.rng
     short = [i for i, s in enumerate(stmts) if s.kind == "gen" or len(s.text) <= (1500 if chk.tier == "thorough" else 300)]
@@ -745,7 +740,7 @@ def part_c(chk, impl, stmts, n_gen, singles):
 
 # ------------------------------------------------------------------------------------------------ part D
 def part_d(chk, impl, singles):
-    n_cases = 600 if chk.tier == "thorough" else 60
+    n_cases = 600 if chk.tier == "thorough" else 40
     rng = chk.rng
     stats = {"ok": 0, "rejected": {}}
     usable = [t for t in TSQL_POOL if singles.get("tsql", t)[0] == "ok"]
